@@ -95,8 +95,8 @@ PROPS = {
         level="exploration",
         rule="(a) complete grid of 63 (period P, list latency L, result-consumption delay D) triples: P in {4,10,25} ms x L in P*{0,.5,.9,1,1.1,2,5} x D in P*{0,1,2}, each observed for >= 6 lists and then closed; (b) rapid triples (P 2-30 ms, L 0-5P, D 0-2.5P) with Close() at a generated instant of the list/tick cycle; (c) shutdown (Close or context cancel) while a list with a latency of 2.5-4 s is in flight: the controller must be down within 1 s and the fake must have seen the List call cancelled. L is produced by the fake client sleeping (ctx-aware); D by publishing a watch event just before a list returns whose controller-level filter evaluation sleeps D, so the result waits to be consumed. Both runtime timer modes (GODEBUG asynctimerchan=0 and =1). Oracle from the fake's call record: never two List calls in flight; start(i+1) - return(i) >= 0.9*P; at least the expected number of lists within 10*(1.1P+L+D)+2s (re-checked once with 3x the bound); Close() returns within the wedge bound; no library goroutine left. Non-trivial = L + D > 0.9*P (the timer fires before the previous result is consumed); distinct = (P, L, D, close instant, timer mode).",
         assumptions=["real time: no clock is injectable; only lower bounds on gaps and wedge detection are asserted (load can only lengthen a gap)"],
-        quick=[J("TestC13_Grid", shards=2), J("TestC13_Grid", shards=2, env={"GODEBUG": "asynctimerchan=1"}), J("TestC13_Random", checks=30, shards=8, par=40), J("TestC13_Random", checks=250, shards=16, env={"GODEBUG": "asynctimerchan=1"}, par=40), J("TestC13_CloseDuringSlowList", checks=15, shards=4, par=32), J("TestC13_CloseDuringSlowList", checks=15, shards=2, env={"GODEBUG": "asynctimerchan=1"}, par=32), J("TestC13_RunsOrStops", checks=60, shards=4, par=32), J("TestC13_LongPeriods", checks=12, shards=4, par=32)],
-        thorough=[J("TestC13_Grid", shards=2, count=5), J("TestC13_Grid", shards=2, count=5, env={"GODEBUG": "asynctimerchan=1"}), J("TestC13_Random", checks=600, shards=16, par=40, timeout=2400), J("TestC13_Random", checks=1500, shards=24, env={"GODEBUG": "asynctimerchan=1"}, par=40, timeout=2400), J("TestC13_CloseDuringSlowList", checks=300, shards=8, par=32), J("TestC13_CloseDuringSlowList", checks=300, shards=8, env={"GODEBUG": "asynctimerchan=1"}, par=32), J("TestC13_RunsOrStops", checks=1500, shards=8, par=32), J("TestC13_LongPeriods", checks=150, shards=8, par=32)],
+        quick=[J("TestC13_Grid", shards=2), J("TestC13_Grid", shards=2, env={"GODEBUG": "asynctimerchan=1"}), J("TestC13_Random", checks=30, shards=8, par=40), J("TestC13_Random", checks=250, shards=16, env={"GODEBUG": "asynctimerchan=1"}, par=40), J("TestC13_CloseDuringSlowList", checks=15, shards=4, par=32), J("TestC13_CloseDuringSlowList", checks=15, shards=2, env={"GODEBUG": "asynctimerchan=1"}, par=32), J("TestC13_RunsOrStops", checks=60, shards=4, par=32), J("TestC13_LongPeriods", checks=12, shards=4, par=32), J("TestC13_SlowListScale", shards=3, env={"VERIF_SLOWLIST_N": "3"}, par=32)],
+        thorough=[J("TestC13_Grid", shards=2, count=5), J("TestC13_Grid", shards=2, count=5, env={"GODEBUG": "asynctimerchan=1"}), J("TestC13_Random", checks=600, shards=16, par=40, timeout=2400), J("TestC13_Random", checks=1500, shards=24, env={"GODEBUG": "asynctimerchan=1"}, par=40, timeout=2400), J("TestC13_CloseDuringSlowList", checks=300, shards=8, par=32), J("TestC13_CloseDuringSlowList", checks=300, shards=8, env={"GODEBUG": "asynctimerchan=1"}, par=32), J("TestC13_RunsOrStops", checks=1500, shards=8, par=32), J("TestC13_LongPeriods", checks=150, shards=8, par=32), J("TestC13_SlowListScale", shards=5, par=32, timeout=600)],
     ),
     "C04": dict(
         level="fault_enumeration",
